@@ -175,6 +175,11 @@ def variants(spec: dict) -> list:
             kw2[k] = float(val)
             v("maze_ctor_kwargs-retyped", maze_ctor_kwargs=kw2)
             break
+    kw3 = dict(spec.get("maze_ctor_kwargs", {}))
+    nones = sorted(k for k, val in kw3.items() if val is None)
+    if nones:
+        del kw3[nones[0]]  # an argument passed explicitly as None versus not passed at all: different serialised content
+        v("maze_ctor_kwargs-none-dropped", maze_ctor_kwargs=kw3)
     ek = dict(spec.get("endpoint_kwargs", {}))
     ek["deadend_start"] = not ek.get("deadend_start", False)
     v("endpoint_kwargs", endpoint_kwargs=ek)
@@ -400,6 +405,12 @@ def rand_cfg(rng: random.Random, tuples: bool) -> dict:
     kw = _ds.rand_ctor_kwargs(rng, gen, n)
     if tuples and gen != "gen_wilson" and rng.random() < 0.5:
         kw["start_coord"] = {"__tuple__": [rng.randrange(n), rng.randrange(n)]}
+    if gen != "gen_wilson" and rng.random() < 0.25:
+        # an explicitly passed None is a generator argument too (it must survive the round trip and take part in the hash)
+        legal = {"gen_dfs": ["accessible_cells", "max_tree_depth", "start_coord"], "gen_prim": ["accessible_cells", "max_tree_depth", "start_coord"], "gen_percolation": ["start_coord"], "gen_dfs_percolation": ["accessible_cells", "max_tree_depth", "start_coord"]}[gen]
+        k = rng.choice(legal)
+        if k not in kw:
+            kw[k] = None
     filters = []
     for _ in range(rng.choice([0, 0, 1, 2])):
         filters.append(
